@@ -905,6 +905,18 @@ func binop(op token.Token, x, y *Term, T types.Type) *Term {
 			}
 		}
 	}
+	// a string with literal text in it (fmt.Sprintf with a literal prefix, "lit" + x) is not ""
+	if op == token.EQL || op == token.NEQ {
+		for k := 0; k < 2; k++ {
+			a, b := x, y
+			if k == 1 {
+				a, b = y, x
+			}
+			if b.IsConst() && b.Name == `""` && nonEmptyString(a) {
+				return boolTerm(op == token.NEQ)
+			}
+		}
+	}
 	// string(a) == string(b) over byte slices is bytes.Equal(a, b)
 	if (op == token.EQL || op == token.NEQ) && isBytesAsString(x) && isBytesAsString(y) {
 		eq := &Term{Op: "call", Name: "bytes.Equal", Args: []*Term{x.Args[0], y.Args[0]}, Typ: T}
@@ -2552,4 +2564,43 @@ func isBytesAsString(t *Term) bool {
 	}
 	b, ok := sl.Elem().Underlying().(*types.Basic)
 	return ok && b.Kind() == types.Uint8
+}
+
+// nonEmptyString: t is a string that contains literal text whatever its operands are:
+// fmt.Sprintf / fmt.Errorf-free formatting with a literal format that has text outside its
+// verbs, or a concatenation with a non-empty literal operand.
+func nonEmptyString(t *Term) bool {
+	switch t.Op {
+	case "const":
+		return len(t.Name) > 2 && strings.HasPrefix(t.Name, `"`)
+	case "bin":
+		if t.Name == "+" && len(t.Args) == 2 {
+			return nonEmptyString(t.Args[0]) || nonEmptyString(t.Args[1])
+		}
+	case "call":
+		if t.Name == "fmt.Sprintf" && len(t.Args) >= 1 && t.Args[0].IsConst() && strings.HasPrefix(t.Args[0].Name, `"`) {
+			f, err := strconv.Unquote(t.Args[0].Name)
+			if err != nil {
+				return false
+			}
+			// drop the verbs (%[flags][width][.prec]verb and %%); anything left is literal text
+			lit := 0
+			for i := 0; i < len(f); i++ {
+				if f[i] != '%' {
+					lit++
+					continue
+				}
+				i++
+				if i < len(f) && f[i] == '%' {
+					lit++
+					continue
+				}
+				for i < len(f) && strings.ContainsRune("+-# 0123456789.[]*", rune(f[i])) {
+					i++
+				}
+			}
+			return lit > 0
+		}
+	}
+	return false
 }
